@@ -3,10 +3,10 @@
 # Applies the change to a SCRATCH worktree of /repo (never to /repo itself), runs the checks against it with evidence and
 # replays redirected to a scratch directory, prints the verdict lines and removes everything.
 P=$(readlink -f $1); shift
-WT=/tmp/wt/run_$$; OUTD=/tmp/wt/out_$$
+mkdir -p /tmp/wt; WT=/tmp/wt/run_$$; OUTD=/tmp/wt/out_$$
 git -C /repo worktree add -q --detach $WT HEAD || exit 2
 git -C $WT apply $P || { echo "PATCH DOES NOT APPLY"; git -C /repo worktree remove --force $WT; exit 2; }
-cd /verif
+cd "$(dirname "$0")/.."
 for c in "$@"; do
   STOCKPYL_REPO=$WT VERIF_OUT=$OUTD ./check $c 2>&1 | grep -v conda | grep -E "^VIOLATION|^KNOWN|quick:|thorough:|INFRA|^  [a-zA-Z_() -]+:" | cut -c1-400
 done
